@@ -34,7 +34,7 @@ NoPhase == [k |-> "none", inRecv |-> FALSE, isPurge |-> FALSE, left |-> {}, pair
 
 InitState(t0) ==
   [cache |-> [i \in Ids |-> None], t0 |-> t0, purged |-> t0, lastDid |-> 0, lastProc |-> -100000, lastQU |-> FALSE,
-   lst |-> {}, ph |-> NoPhase, live |-> [b \in Bids |-> {}], bt |-> [b \in Bids |-> {}], err |-> ""]
+   lst |-> {}, ph |-> NoPhase, live |-> [b \in Bids |-> {}], bt |-> [b \in Bids |-> {}], exc |-> FALSE, err |-> ""]
 
 Fail(st, clause) == [st EXCEPT !.err = clause]
 
@@ -240,14 +240,18 @@ Step(st, e) ==
     [] e.ev = "bstart_done" -> OnBstartDone(st, e)
     [] e.ev = "bcancel"     -> LET c == ClosePurge(st) IN [c EXCEPT !.bt[e.bid] = {}, !.live[e.bid] = {}]
     [] e.ev = "snap"        -> OnSnap(st, e)
-    [] e.ev = "exc"         -> Fail(st, "C15_NoException")
+    \* an exception that escaped the library: C15's business.  The family checks go on judging their own clauses on what
+    \* follows (the rest of that datagram was not processed, which the snapshots and callbacks will show)
+    [] e.ev = "exc"         -> IF D.own = "ALL" THEN Fail(st, "C15_NoException") ELSE [st EXCEPT !.exc = TRUE]
     [] e.ev = "end"         -> OnEnd(st, e)
     [] OTHER                -> Fail(st, "Trace_Malformed")
 
+\* once an exception has been seen the event grammar of a datagram may be broken off: that is not a malformed trace
+AfterExc(st) == IF st.exc /\ st.err = "Trace_Malformed" THEN Fail(st, "C15_NoException") ELSE st
 Events == Traces[tid].events
 Init == /\ tid \in 1..N /\ l = 1 /\ s = InitState(0)
 Next == /\ s.err = "" /\ l <= Len(Events)
-        /\ s' = Step(s, Events[l])
+        /\ s' = AfterExc(Step(s, Events[l]))
         /\ l' = IF s'.err = "" THEN l + 1 ELSE l
         /\ UNCHANGED tid
 Spec == Init /\ [][Next]_vars
